@@ -11,6 +11,7 @@ import CBV.Lemmas.C15Max
 import CBV.Lemmas.C15Graph
 import CBV.Lemmas.C15Lattice
 import CBV.Lemmas.C15Hex
+import CBV.Lemmas.C15Rate
 import Mathlib.Tactic.Ring
 import Mathlib.Tactic.Linarith
 import Mathlib.Tactic.FieldSimp
@@ -592,6 +593,74 @@ example :
     smooth g [] 1 q = q ∧ 5 ∈ inner g ∧ 1 ∈ junctionNbrs g 5 ∧ pget p 1 = pget q 1 ∧
       (pget (step (junctionNbrs g) [] p 5) 5).x - (pget q 5).x = 1/8 ∧ (1 - 1 / (4 : Rat)) * (1/4) = 3/16 := by
   decide +kernel
+
+/-! ### the rate: geometric convergence with an explicit factor -/
+
+/-- a level function for the free junctions: every free inner junction has a neighbour of smaller level (levels count
+    the links to the frame; boundary and fixed junctions may have level 0), at most `Δ` neighbours and level at most `d` -/
+def Levelled (g : Grid) (fixed : List Nat) (lvl : Nat → Nat) (Δ d : Nat) : Prop :=
+  1 ≤ Δ ∧ ∀ j ∈ inner g, j ∉ fixed →
+    (∃ t ∈ junctionNbrs g j, lvl t < lvl j) ∧ (junctionNbrs g j).length ≤ Δ ∧ lvl j ≤ d
+
+theorem iter_add (f : List V3 → List V3) (a b : Nat) (p : List V3) : iter f (a + b) p = iter f b (iter f a p) := by
+  induction a generalizing p with
+  | zero => simp [iter]
+  | succ a ih => rw [Nat.succ_add]; simp only [iter]; exact ih (f p)
+
+/-- **Rate of convergence**, every graph with a level function (in particular every anchored grid: take the number of
+    links to the frame), every fixed set, in-place order as the code performs it: if `q` is the fixed point and `p`
+    carries the same boundary and fixed positions, then `d` iterations — `d` the depth of the graph — shrink the max-norm
+    distance to `q` to at most `(1 − Δ^(−d))` times what it was. -/
+theorem T_C15_rate (g : Grid) (fixed : List Nat) (lvl : Nat → Nat) (Δ d : Nat) (hL : Levelled g fixed lvl Δ d)
+    (q p : List V3) (hq : smooth g fixed 1 q = q) (hp : p.length = g.n) (hqn : q.length = g.n)
+    (hb : ∀ i, isBoundary g i = true ∨ i ∈ fixed → pget p i = pget q i) :
+    linfDist (smooth g fixed d p) q ≤ (1 - (1 / (Δ : Rat)) ^ d) * linfDist p q := by
+  obtain ⟨hΔ, hlev⟩ := hL
+  have hD : (1 : Rat) ≤ (Δ : Rat) := by exact_mod_cast hΔ
+  have hM : 0 ≤ linfDist p q := linfDist_nonneg p q
+  have hqf : ∀ j ∈ inner g, j ∉ fixed → pget q j = avg ((junctionNbrs g j).map (pget q)) := by
+    unfold smooth at hq; simp only [iter] at hq
+    intro j hj hf
+    exact (sweep_eq_self_iff _ (inner_nodup g) _ _ _).mp hq j hj hf (by rw [hqn]; exact ((mem_inner g j).mp hj).1)
+  have hnf : ∀ i, ¬ (i ∈ inner g ∧ i ∉ fixed) → pget p i = pget q i := by
+    intro i hi
+    by_cases hlt : i < g.n
+    · apply hb
+      by_cases hfx : i ∈ fixed
+      · exact Or.inr hfx
+      · left; by_contra hbd
+        exact hi ⟨(mem_inner g i).mpr ⟨hlt, by simpa using hbd⟩, hfx⟩
+    · rw [pget_of_le p i (by omega), pget_of_le q i (by omega)]
+  have hl : ∀ j ∈ inner g, j < p.length := fun j hj => by rw [hp]; exact ((mem_inner g j).mp hj).1
+  have habs : ∀ {c : V3 → Rat}, IsLin c → (∀ a b, |c a - c b| ≤ coordDist a b) →
+      ∀ i, |c (pget p i) - c (pget q i)| ≤ linfDist p q := by
+    intro c _ hcd i
+    by_cases hi : i < p.length
+    · exact (hcd _ _).trans (coordDist_le_linfDist p q i hi)
+    · rw [pget_of_le p i (by omega), pget_of_le q i (by omega)]; simpa using hM
+  have key : ∀ {c : V3 → Rat}, IsLin c → (∀ a b, |c a - c b| ≤ coordDist a b) →
+      ∀ i, |c (pget (smooth g fixed d p) i) - c (pget q i)| ≤ (1 - (1 / (Δ : Rat)) ^ d) * linfDist p q := by
+    intro c hc hcd i
+    have hA := habs hc hcd
+    unfold smooth
+    rw [abs_le]
+    have up := iter_err_le_rate hc (inner g) (junctionNbrs g) fixed q lvl (Δ : Rat) (linfDist p q) hD hM hqf
+      (fun j hj hf => (hlev j hj hf).1) (fun j hj hf => by exact_mod_cast (hlev j hj hf).2.1)
+      d (fun j hj hf => (hlev j hj hf).2.2) p hl (fun t => (abs_le.mp (hA t)).2)
+      (fun t ht => by rw [hnf t ht]; ring) i
+    have lo := iter_err_le_rate hc.neg (inner g) (junctionNbrs g) fixed q lvl (Δ : Rat) (linfDist p q) hD hM hqf
+      (fun j hj hf => (hlev j hj hf).1) (fun j hj hf => by exact_mod_cast (hlev j hj hf).2.1)
+      d (fun j hj hf => (hlev j hj hf).2.2) p hl (fun t => by have := (abs_le.mp (hA t)).1; linarith)
+      (fun t ht => by rw [hnf t ht]; ring) i
+    constructor <;> linarith
+  have hx : ∀ a b : V3, |a.x - b.x| ≤ coordDist a b := fun a b => ((coordDist_le_iff a b _).mp le_rfl).1
+  have hy : ∀ a b : V3, |a.y - b.y| ≤ coordDist a b := fun a b => ((coordDist_le_iff a b _).mp le_rfl).2.1
+  have hz : ∀ a b : V3, |a.z - b.z| ≤ coordDist a b := fun a b => ((coordDist_le_iff a b _).mp le_rfl).2.2
+  rw [linfDist_le_iff]
+  refine ⟨mul_nonneg ?_ hM, fun i _ => ?_⟩
+  · rw [← bnd_closed (Δ : Rat) (by linarith) d]; exact (bnd_range (Δ : Rat) hD d).1
+  · rw [coordDist_le_iff]
+    exact ⟨key isLin_x hx i, key isLin_y hy i, key isLin_z hz i⟩
 
 /-- **Uniqueness of the fixed point (discrete maximum principle)**, every graph: two position lists that are both
     unchanged by a sweep and agree on all boundary and fixed junctions are equal, as soon as every free inner
